@@ -260,11 +260,25 @@ def source_tie(ctx, prop, specs):
     path = os.path.join(CASES, 'Tie_%s.v' % prop)
     with open(path, 'w') as fh:
         fh.write(tmpl.replace('(* GENERATED *)', '(* GENERATED from %s *)\n%s' % (', '.join(s[0] + ':' + s[1] for s in specs), gen)))
+        fh.write('\n' + ''.join('Print Assumptions %s.\n' % l for l in lemmas))
     rc, out = sh('timeout 300 coqc -Q %s TV -w -all Tie_%s.v' % (COQ, prop), cwd=CASES, timeout=330)
     if rc != 0:
         ctx.violation('tie:' + prop, 'source tie broken: the kernel regenerated from the current source no longer equals the '
                       'model kernel (Tie_%s.v):\n%s\n--- regenerated ---\n%s' % (prop, out[-1500:], gen), no_input=True)
         return False
+    # the tie lemmas may rest on the standard library's real-number axioms only
+    blocks = re.split(r'(?m)^(?=Closed under the global context|Axioms:)', out)
+    blocks = [b for b in blocks if b.startswith('Closed under') or b.startswith('Axioms:')]
+    if len(blocks) != len(lemmas):
+        ctx.violation('tie:' + prop, 'source tie: %d Print Assumptions blocks for %d lemmas' % (len(blocks), len(lemmas)), no_input=True)
+        return False
+    for l, b in zip(lemmas, blocks):
+        axs = [] if b.startswith('Closed') else re.findall(r'(?m)^([A-Za-z0-9_\'.]+)\s*:', b[len('Axioms:'):])
+        extra = [a for a in axs if a not in STDLIB_AXIOMS]
+        if extra:
+            ctx.violation('tie:' + prop, 'source tie lemma %s depends on non-whitelisted axioms %s' % (l, extra), no_input=True)
+            return False
+        ctx.assumptions[l] = axs
     ctx.discharged.extend(lemmas)
     ctx.notes.append('source tie: %s regenerated from source and proved equal to the model kernels (%s)'
                      % (', '.join(s[1] for s in specs), ', '.join(lemmas)))
